@@ -54,8 +54,19 @@ def totality_case(draw, tier="quick"):
     if width >= 9:
         length = min(length, 4)
     cols = []
-    for _ in range(width):
+    uniform = draw(st.sampled_from([None, None, "int", "float", "str"]))      # wide tables whose visible columns agree
+    odd = draw(st.integers(0, max(0, width - 1)))
+    for j in range(width):
         kind = draw(st.sampled_from(["int", "float", "str", "date", "bool", "weird_float", "mixed", "bytes", "weird_str", "complex", "datetime"]))
+        if uniform is not None and length:
+            if j == odd and draw(st.booleans()):
+                col = _column(draw, draw(st.sampled_from(["str", "bool", "date"])), length)
+            else:
+                col = draw(st.lists(V.SCALARS[uniform], min_size=length, max_size=length))
+                if j == odd:
+                    col[0] = None                    # same kind, but nullable
+            cols.append((draw(V.any_names), col))
+            continue
         cols.append((draw(V.any_names), _column(draw, kind, length)))
     return {"what": "table", "setting": setting, "cols": cols, "peek": draw(st.integers(0, 5)) == 0}
 
